@@ -60,10 +60,16 @@ impl ZodBindingsGenerator {
             .collect();
 
         let enum_values = variants.join(", ");
+        // An enum without variants has no values at all (z.enum needs at least one member)
+        let schema = if variants.is_empty() {
+            "z.never()".to_string()
+        } else {
+            format!("z.enum([{}])", enum_values)
+        };
         // commands.ts and events.ts refer to the enum by its type name (types.Name), like a struct
         format!(
-            "export const {}Schema = z.enum([{}]);\n\nexport type {} = z.infer<typeof {}Schema>;\n\n",
-            name, enum_values, name, name
+            "export const {}Schema = {};\n\nexport type {} = z.infer<typeof {}Schema>;\n\n",
+            name, schema, name, name
         )
     }
 
